@@ -40,11 +40,16 @@ ID = "C09"
 MOD = "harness.props.c09"
 T = "MetadorModel.C09."
 LEAN = dict(
-    modules=["MetadorModel.Props.C09"],
+    # Props.C09 depends on the container model only; Props.C09Coherent discharges the coherence
+    # hypothesis of part (b) with the C06 invariant (imports Proofs/ContainerCoherent.lean).
+    modules=["MetadorModel.Props.C09", "MetadorModel.Props.C09Coherent"],
     theorems=[T + n for n in (
         "boundaries_unobservable",
         "reopen_unobservable_upto",
         "reopen_unobservable_of_coherent",
+        "reopen_unobservable_of_coherent_on",
+        "reopen_unobservable",
+        "boundaries_and_reopens_unobservable",
         "literal_coherence_fails",
         "driver_refinement",
         "container_refines",
@@ -191,6 +196,24 @@ class _Run9(C._Run):
                 objs[p] = (e, u)
         return objs
 
+    def user_obs(self, items, obs, att):
+        """get/query answers as compared between variants: failures as `err`; `get` through a
+        parent schema when SEVERAL child-schema instances are attached returns an unspecified one
+        of them (iteration order of a `set`, documented as unspecified; it changes with the
+        insertion history, e.g. after reopen) — the answer is replaced by the candidate set
+        (that the object returned is one of them is checked by `run_obs`)."""
+        out = []
+        for (kind, n, name, ver), x in zip(items, obs):
+            if kind == "g" and x.startswith("g=obj:"):
+                cands = [(e, u, op) for e, u, op in att.get(n, []) if self.spec_match(e, name, ver)]
+                exact = [c for c in cands if self.ref_of(c[0])[0] == name]
+                if not exact and len(cands) > 1:
+                    ids = sorted("%s@%s" % (e, self.by_bytes.get(bytes(self.raw()[op][()]), "?")) for e, u, op in cands)
+                    x = "g=any-of:" + "/".join(ids)
+                    self.tags.add("get-parent-view-ambiguous")
+            out.append(_coarse_obs(x))
+        return out
+
     # ------------------------------------------------------------------ tags
     def born_of(self, p):
         while True:
@@ -315,7 +338,7 @@ class _Run9(C._Run):
             if bi is not None:
                 v = self.user_view()
                 v["status"] = _coarse(st)
-                v["obs"] = [_coarse_obs(x) for x in obs]
+                v["obs"] = self.user_obs(items, obs, att)
                 self.steps.append(v)
                 self.tags.add("op:%s:%s" % (op[0], "ok" if st.startswith("ok") else "err"))
             prev = (op, bi, st)
@@ -325,7 +348,7 @@ class _Run9(C._Run):
         items = [(kk, n, name, tuple(ver) if ver else None) for kk, n, name, ver in case.get("final") or []]
         v = self.user_view()
         v["status"] = "-"
-        v["obs"] = [_coarse_obs(x) for x in self.run_obs(items, att, entries, len(self.seq))]
+        v["obs"] = self.user_obs(items, self.run_obs(items, att, entries, len(self.seq)), att)
         self.final = v
 
     def next_base(self, k):
@@ -570,7 +593,7 @@ def compare(case, ir, mo):
 
 
 # --------------------------------------------------------------------------- run
-N_CASES = {"quick": 46, "thorough": 320}
+N_CASES = {"quick": 40, "thorough": 320}
 
 
 def run(ctx):
@@ -590,9 +613,12 @@ def run(ctx):
         "uuid1() is fresh; uuids are compared up to renaming by first appearance (per variant)",
         "exception classes of tree-level failures differ legitimately between drivers: outcomes are compared as succeed/fail",
         "attributes of user nodes are a pass-through of the driver (not part of the container model; lock-step only)",
-        "Lean: `reopen_unobservable_of_coherent` has ONE explicit hypothesis `CacheCoherent e` (caches rebuilt by reload are `CachesEqv` "
-        "to the maintained ones in every reachable state; to be discharged from the C06 invariant). Literal equality is false in the model "
-        "(`literal_coherence_fails`); that `CachesEqv` states are indistinguishable is proved (`obsEq_congruent`)",
+        "Lean: `reopen_unobservable` (Props/C09Coherent.lean) holds for every well-formed schema environment (WFEnv) and every history "
+        "without a move to an EMPTY node name (OpOK; not expressible in HDF5); it rests on `reopen_unobservable_of_coherent_on` + the C06 "
+        "invariant (`cacheCoherent_ok`). Reopen is unobservable up to `CachesEqv` of the caches (literal equality is false in the model: "
+        "`literal_coherence_fails`); that `CachesEqv` states are indistinguishable is proved for all ops (`obsEq_congruent`)",
+        "`node.meta.get(parent schema)` with several attached child-schema instances returns an unspecified one of them (set iteration "
+        "order, documented as unspecified; changes e.g. after reopen): compared as the candidate set",
         "Lean: `container_refines` assumes the driver laws (create/del/move/copy commute with the view, equal outcomes); that IH5 "
         "satisfies them is C01 (`run_refines`) and is exercised here by the lock-step",
     ]
